@@ -448,16 +448,19 @@ theorem rep_iterations_advance (p : P) (nd : Node) (acts : Bool) (slen b : Nat) 
 
 theorem lookahead_consumes_nothing (g : Grammar) (p : P) (nd : Node) (s : List Char) (loc : Nat) (acts : Bool)
     (x : Nat) (hk : nd.kind = .notAny x ∨ nd.kind = .followedBy x) (e : Nat) (ts : List Tok)
-    (h : parseImpl g p nd s loc acts = .ok e ts) : e = loc ∧ ts = [] := by
+    (h : parseImpl g p nd s loc acts = .ok e ts) : e = loc ∧ flatL ts = [] := by
   unfold parseImpl at h
   rcases hk with hk | hk
   · simp only [hk] at h
     cases hc : canParseNext p x loc acts with
     | none => rw [hc] at h; simp at h
-    | some b => rw [hc] at h; cases b <;> simp at h; exact ⟨h.1.symm, h.2⟩
+    | some b => rw [hc] at h; cases b <;> simp at h; exact ⟨h.1.symm, by rw [h.2]; rfl⟩
   · simp only [hk] at h
     cases hp : p x loc acts true with
-    | ok l t => rw [hp] at h; simp at h; exact ⟨h.1.symm, h.2⟩
+    | ok l t =>
+      rw [hp] at h; simp only [Out.ok.injEq] at h
+      refine ⟨h.1.symm, ?_⟩
+      rw [← h.2]; split <;> simp [flatL, Tok.flat]
     | fail c l => rw [hp] at h; simp at h
     | idx => rw [hp] at h; simp at h
     | hang => rw [hp] at h; simp at h
@@ -501,9 +504,10 @@ theorem group_nests (nd : Node) (x : Nat) (hk : nd.kind = .group x) (ts : List T
 theorem suppress_omits (nd : Node) (x : Nat) (hk : nd.kind = .suppress x) (ts : List Tok) : postParse nd ts = [] := by
   simp [postParse, hk]
 
-theorem combine_joins (nd : Node) (x : Nat) (j : List Char) (hk : nd.kind = .combine x j) (ts : List Tok) :
+theorem combine_joins (nd : Node) (x : Nat) (j : List Char) (hk : nd.kind = .combine x j) (ts : List Tok)
+    (hplain : annotatedL ts = false) :
     postParse nd ts = [.s (combineStr j ts)] := by
-  simp [postParse, hk]
+  simp [postParse, hk, hplain]
 
 /-- the whitespace rule at the level of `_parseNoCache`: a skipping element without ignorables runs its
     `parseImpl` at the first non-blank position, whatever `parseImpl` then does (even if it matches nothing) -/
